@@ -508,6 +508,11 @@ def fits(actual: K, expected: K) -> Verdict:
             if len(actual.items) != len(expected.items):
                 return Mismatch(f"{len(actual.items)}-tuple {actual!r} where {expected!r} expected")
             return _combine_all([fits(a, e) for a, e in zip(actual.items, expected.items)])
+        if isinstance(actual, Seq) and not isinstance(actual.elem, _Top):
+            # a tuple of unknown arity (built by a generator): it may be the composite when each component could be
+            # one of its elements - `tuple(tuple(sorted(edge[i])) for i in (0, 1))`
+            if not any(isinstance(fits(actual.elem, e), Mismatch) for e in expected.items):
+                return UNKNOWN
         if isinstance(actual, (Seq, Lst, St)):
             return Mismatch(f"{actual!r} where composite key {expected!r} expected")
         if isinstance(actual, Atom) and actual.name in STRONG:
